@@ -36,6 +36,8 @@ DOUBLES = {"1234": 1234.0, "-17": -17.0, "0": 0.0, "3.5": 3.5, "0.25": 0.25, "1e
 
 def render_kv(rng, key, text):
     """one concrete spelling of `key = text` within the documented grammar"""
+    if len(text) > 800:
+        return key + "=" + text          # long values: stay within the documented 1024-byte line limit
     needs_quote = any(c in text for c in ";#") or text == ""
     if needs_quote:
         q = rng.choice(['"', "'"])
